@@ -98,7 +98,7 @@ pub fn run(tier: Tier) -> i32 {
     let started = std::time::Instant::now();
     let (h, d, k, a, secs) = match tier {
         Tier::Quick => (3, 2, 1, 4, 55),
-        Tier::Thorough => (4, 3, 3, 16, 1800),
+        Tier::Thorough => (4, 3, 2, 8, 2400),
     };
     // only programs that define at least one of the pure pool functions
     let mut set: Vec<ProgSrc> = pause_programs();
